@@ -49,6 +49,25 @@ pub fn gen(tier: &str, seed: u64, emit: &mut dyn FnMut(String)) {
             emit(line);
         }
     }
+    // an application whose construct() queues changes itself (outside the model: compared across chunkings only): flagged
+    // packets on unannounced PIDs leave those changes pending across packets and across push calls
+    for _ in 0..(if big { 300 } else { 80 }) {
+        let base = (rng.range(0x20, 0x1f00) as u16) & !3;
+        let pool = [base, base | 1, base | 2, base | 3];
+        let n = rng.range(2, if big { 9 } else { 7 }) as usize;
+        let mut pk: Vec<Vec<u8>> = vec![];
+        while pk.len() < n { let pid = *rng.pick(&pool); let mut p = rng.bytes(188); p[0] = 0x47; p[1] = (p[1] & 0x60) | (pid >> 8) as u8; p[2] = pid as u8; p[3] &= 0x3f;
+            match rng.below(4) { 0 => p[1] |= 0x80, 1 => p[3] |= 0x40, _ => {} } pk.push(p); }
+        group += 1;
+        for mask in 0u32..(1u32 << (n - 1)) {
+            let mut chunks: Vec<Vec<u8>> = vec![]; let mut cur: Vec<u8> = vec![];
+            for (j, p) in pk.iter().enumerate() { cur.extend_from_slice(p); if j + 1 < n && (mask >> j) & 1 == 1 { chunks.push(std::mem::take(&mut cur)); } }
+            chunks.push(cur);
+            let mut line = dmx_case(0, "", &chunks).replacen("DMX", "DMXQ", 1);
+            line.push_str(&format!(" #g{}", group));
+            emit(line);
+        }
+    }
     // long streams, random chunkings
     for _ in 0..(if big { 400 } else { 40 }) {
         let (m, _t, _p) = valid_stream(&mut rng, 2, 2, true);
